@@ -29,6 +29,8 @@ def atoms():
         T, T, z3.ULT(x, 5), x == 4, z3.UGT(y, 7), x == y, z3.Not(x == 4), z3.ULE(y, 7), w == x + y, z3.ULT(w, x),
         f(x) == y, z3.Not(f(x) == y), z3.And(z3.UGT(x, 1), z3.ULT(x, 9)), z3.Or(x == 0, y == 0), w == 1028, x == 0,
         z3.UGT(x, 100), z3.Extract(7, 0, y) == 3, z3.simplify(z3.And(T, T)), y == 7,
+        # conjunctions whose first / last conjunct may already be on the path on its own
+        z3.UGT(x, 1), z3.And(z3.UGT(x, 1), y == 7), z3.And(x == 4, z3.UGT(y, 7)), z3.And(z3.UGT(y, 7), x == 4, w == 1028),
     ]
 
 
@@ -74,9 +76,15 @@ class Hist:
         self.ops = []
         self.queries = 0
 
-    def pick(self, pool):
-        if self.rng.random() < self.p_true:
+    def pick(self, pool, have=()):
+        u = self.rng.random()
+        if u < self.p_true:
             return pool[0]
+        have = [c for c in have if not z3.is_true(c) and not z3.is_and(z3.simplify(c))]
+        if u < self.p_true + 0.15 and have:
+            # a conjunction one of whose conjuncts is already a constraint of this path
+            old, new = self.rng.choice(have), self.rng.choice(pool[2:])
+            return z3.And(old, new) if self.rng.random() < 0.5 else z3.And(new, old)
         return self.rng.choice(pool)
 
     def run(self):
@@ -145,7 +153,7 @@ class Hist:
                 cands[id(active)] = {**cands[id(active)], str(sym): list(choices)}
                 check(step, "dyn-param")
             elif u < 0.45:
-                c = self.pick(pool)
+                c = self.pick(pool, expect[id(active)])
                 self.ops.append(("append", str(c)))
                 active.append(c)
                 expect[id(active)] = expect[id(active)] + [c]
@@ -154,7 +162,7 @@ class Hist:
                 # fork: k pending siblings (k > 1: the cheatcode-style fan-out), the active path keeps running
                 k = 1 if self.rng.random() < 0.7 else self.rng.choice([2, 3])
                 for _ in range(k):
-                    c = self.pick(pool)
+                    c = self.pick(pool, expect[id(active)])
                     self.ops.append(("branch", str(c)))
                     child = active.branch(c)
                     keep.append(child)
